@@ -1,7 +1,9 @@
 """C18 — errors are reported faithfully: class, message, call chain and exit status.  DESIGN.md §5 C18.
 
 Obligations: lean/LaytheVerif/Props/C18.lean (C18_enc_table, C18_lines_aligned, C18_saved_ip_line,
-C18_opt_slots_owned, C18_backtrace_frames, C18_traceback_frames(_partial), C18_status + witnesses).
+C18_opt_slots_owned, C18_backtrace_frames, C18_traceback_frames(_partial), C18_nested_catch_above_bottom,
+C18_unwind_across_natives, C18_exit_through_natives, C18_exit_status_anywhere, C18_status, C18_status_kind
++ the witness of the open finding D181).
 
 Streams:
   lines   (tie A)  for every function of the compile dump of the fixture corpus and of the generated
@@ -11,6 +13,9 @@ Streams:
   chains  (tie B)  seeded call-chain programs with randomised line layout (vlib/props/c18gen.py), run with
                    the release harness; judged by `drv_lines judge` (Lean): Spec verdict (the property),
                    model verdict (Model/Lines.lean run on the chain), anchor verdict (documented compiler rule).
+  corpus           corpus/C18/*.json first: plans (judged like the chains) and raw multi-file programs with their
+                   expected result (`files` + `correct`), among them the witnesses of the repaired findings
+                   D182–D185 as regression inputs.
 """
 import copy
 import json
@@ -369,28 +374,37 @@ def check_native_table():
 # known findings
 
 
-def replay_finding(rec):
-    """True iff the witness still shows the defect."""
-    wdir = os.path.join(common.VERIF, os.path.dirname(rec["witness"]))
-    case = json.load(open(os.path.join(common.VERIF, rec["witness"])))
-    d = os.path.join(WORK, "known", rec["id"])
+def run_raw_case(case, tag):
+    """A program given as files with its expected result (`correct`).  Returns (None or what differs, observed)."""
+    d = os.path.join(WORK, "raw", tag)
     shutil.rmtree(d, ignore_errors=True)
     write_case(d, case["files"])
     r = common.run_batch([os.path.join(d, "main.lay")], release=RELEASE)[0]
+    obs = {"status": r["status"], "stdout": mask(r.get("stdout", ""), d), "stderr": mask(r.get("stderr", ""), d)}
+    exp = case["correct"]
+    bad = None
+    if "status" in exp and obs["status"] != exp["status"]:
+        bad = "status expected %s got %s" % (exp["status"], obs["status"])
+    elif "status_not" in exp and obs["status"] == exp["status_not"]:
+        bad = "status must not be %s" % exp["status_not"]
+    elif "stdout" in exp and obs["stdout"] != exp["stdout"]:
+        bad = "stdout expected %r got %r" % (exp["stdout"], obs["stdout"])
+    elif "stderr" in exp and obs["stderr"] != exp["stderr"]:
+        bad = "stderr expected %r got %r" % (exp["stderr"], obs["stderr"])
+    elif "stderr_first" in exp and obs["stderr"].split("\n")[0] != exp["stderr_first"]:
+        bad = "first stderr line expected %r got %r" % (exp["stderr_first"], obs["stderr"].split("\n")[0])
+    elif "stderr_last" in exp and obs["stderr"].strip().split("\n")[-1] != exp["stderr_last"]:
+        bad = "last stderr line expected %r got %r" % (exp["stderr_last"], obs["stderr"].strip().split("\n")[-1])
+    return bad, obs
+
+
+def replay_finding(rec):
+    """True iff the witness still shows the defect."""
+    case = json.load(open(os.path.join(common.VERIF, rec["witness"])))
     if case.get("plan"):
         # judged by the Lean Spec from the plan (the files on disk are the rendering of that plan)
         return verdict_of(case["plan"], "known_" + rec["id"])["verdict"][0] != "ok"
-    exp = case["correct"]
-    ok = True
-    if "status" in exp:
-        ok = ok and r["status"] == exp["status"]
-    if "status_not" in exp:
-        ok = ok and r["status"] != exp["status_not"]
-    if "stdout" in exp:
-        ok = ok and mask(r.get("stdout", ""), d) == exp["stdout"]
-    if "stderr_last" in exp:
-        ok = ok and mask(r.get("stderr", ""), d).strip().split("\n")[-1] == exp["stderr_last"]
-    return not ok
+    return run_raw_case(case, "known_" + rec["id"])[0] is not None
 
 
 # ---------------------------------------------------------------------------------------------
@@ -407,9 +421,12 @@ def run(ctx):
     ctx.cov["rule"] = ("(lines) every function of the compile dump of the 637 fixture programs and of the generated programs; non-trivial = "
                        "the function spans more than one source line; (chains) seeded call-chain programs: depth 0..8 over link kinds "
                        "fn/method/init/static/super/let-lambda/each/map+list/reduce/any/all/filter+list/for-in/call()/print->str()/"
-                       "second module with callback, innermost action raise Error/subclass/custom-init subclass, 1+nil, undefined "
-                       "property, nil(), index out of range, raise 5, exit(n)/exit(), normal finish; try/catch in any zero-parameter frame "
-                       "with blank/Error/exact/super/unrelated filters and actions continue/exit(n)/wrap(+inner)/rethrow; layout: each "
+                       "List.sort comparator/second module with callback/module imported mid-script, innermost action raise Error/subclass/"
+                       "custom-init subclass/subclass whose message stays nil, 1+nil, undefined property, nil(), index out of range, raise 5, "
+                       "exit(n)/exit() (also inside native callbacks), import of a module that does not compile (import m / import m: {f}, "
+                       "5 kinds of compile error), normal finish; try/catch in any frame (also frames with parameters and the frame that "
+                       "drives a lazy iterator) with blank/Error/exact/super/unrelated filters and actions continue/exit(n)/wrap(+inner)/"
+                       "rethrow; print() fillers; layout: each "
                        "token boundary breaks the line with p in {0,.05,.2,.5,.9}, blank lines, comment lines, several statements per "
                        "line; non-trivial = depth>=1 and not a plain finish; distinct by chain description (includes all line numbers)")
     if not proved:
@@ -429,14 +446,27 @@ def run(ctx):
     # corpus first
     corpus = os.path.join(common.VERIF, "corpus", "C18")
     pre = []
+    raw = []
     if os.path.isdir(corpus):
         for f in sorted(os.listdir(corpus)):
             r = json.load(open(os.path.join(corpus, f)))
             if r.get("plan"):
                 pre.append(r["plan"])
+            elif r.get("files") and r.get("correct"):
+                raw.append((f, r))
     ok, _ = stream_chains(ctx, "corpus", pre)
     if not ok:
         return
+    for f, r in raw:
+        bad, obs = run_raw_case(r, f)
+        ctx.count_case(["raw", f], nontrivial=True)
+        if bad:
+            ctx.cov["impl_vs_spec_failures"] += 1
+            ctx.violation("corpus_spec", {"engine": "raw", "kind": "implementation-vs-spec", "what": bad, "corpus_file": f, "why": r.get("why"),
+                                          "files": r["files"], "correct": r["correct"], "observed": obs})
+            return
+    ctx.stream_stat("corpus", raw_programs=len(raw))
+    ctx.cov["traces_validated_against_impl"] += len(raw)
     # tie B
     rng = random.Random(ctx.seed * 1000003 + 18)
     n = ctx.n(12000, 300000)
@@ -487,7 +517,12 @@ def run(ctx):
         "(C18_status_saturates); the operating system keeps the low 8 bits of what process::exit receives",
         "errors raised while a module is being imported run on the import fiber: their traceback stops at that module's script frame "
         "(fibers are outside this stream)",
-        "generators avoid the signatures of D1, D20 and of the known findings D181–D185",
+        "an imported module's script frame runs on the import fiber; the stream ends such chains with exit / finish / a failing "
+        "import only (an error raised there does not reach the importing frames: fibers are outside this stream)",
+        "a failing import: the Spec demands the compile-error status, that nothing after the import ran, and that diagnostics were "
+        "written (first stderr line starts with `error`); the text of the diagnostics belongs to C17",
+        "the generator avoids only the signature of the open finding D181 (an unhandled error that passed a declining catch clause); "
+        "the shapes of the repaired D1, D20, D182–D185 are generated and judged by the Spec",
     ]
 
 
